@@ -65,6 +65,7 @@ ASSUMPTIONS = [
     "slab traces use profiles that do not vary along the ray so that the volume integrator is exact",
 ]
 REQUIRED_CLASSES = (
+    ["seq", "seq:exc", "seq:rec", "seq:cx", "seq:trp", "seq:brems", "seq:B-zero", "seq:B-neg", "seq:B-different"] +
     ["%s:%s" % (m, g) for m in ("ExcitationLine", "RecombinationLine") for g in ("all-positive", "ne<=0", "te<=0", "n-target<=0", "T-target<=0", "missing-species")]
     + ["ThermalCXLine:%s" % g for g in ("all-positive", "ne<=0", "te<=0", "n-target<=0", "T-target<=0", "donor-n<0", "donor-T<=0", "donor-n=0", "missing-species",
                                         "comp:bare-other", "comp:donors=0", "comp:no-bare-other")]
@@ -225,7 +226,121 @@ def cases(tier):
     for m in ("exc", "rec", "cx", "trp", "brems", "radfn"):
         for variant in range(4 if tier == "quick" else 8):
             out.append({"kind": "slab", "model": m, "variant": variant, "label": "slab:" + m})
+    out += _seq_cases(tier)
     return out
+
+
+SEQ_MODELS = ["exc", "rec", "cx", "trp", "brems"]
+# per-species densities in the two half-spaces (x < 0: region A, x >= 0: region B); every variant keeps ne, te > 0
+SEQ_VARIANTS = {
+    "B-zero:D0": {"D0": 0.0}, "B-zero:D1": {"D1": 0.0}, "B-zero:C5": {"C5": 0.0}, "B-zero:C6": {"C6": 0.0}, "B-neg:C6": {"C6": -2e16},
+    "B-zero:all-ions": {"D1": 0.0, "C5": 0.0, "C6": 0.0, "He2": 0.0}, "B-different": {"D0": 4e16, "D1": 5e17, "C5": 2e16, "C6": 7e16, "He2": 1e16},
+}
+SEQ_STEPS = ["A", "B", "A", "B", "notify", "B", "A", "replace-donor", "A", "B", "add-species", "B", "A"]
+
+
+def _seq_cases(tier):
+    out = []
+    for m in SEQ_MODELS:
+        for v in sorted(SEQ_VARIANTS):
+            out.append({"kind": "seq", "model": m, "variant": v, "label": "seq:" + m})
+    return out
+
+
+def _run_seq(case, acc):
+    """Engine-H style family inside this lattice check: ONE model instance is evaluated at points of two regions in
+    an order, across a plasma notification and across composition changes; every evaluation must equal that of a
+    freshly built model (same final plasma state) evaluated at that point only.  Catches buffers that keep values of
+    the previous point and cache fields that survive a reset."""
+    from raysect.core import Vector3D
+    from scipy.constants import atomic_mass, electron_mass
+    from cherab.core import Plasma, Species, Maxwellian
+    from cherab.core.atomic import Line
+    from cherab.core.model import ExcitationLine, RecombinationLine, ThermalCXLine, TotalRadiatedPower, Bremsstrahlung
+    from mc.refs import passive_mock as M
+    L = M.lib()
+    kind, variant = case["model"], case["variant"]
+    name = MODEL_NAME[kind]
+    baseA = {"D0": 2e16, "D1": 8e17, "C5": 1e16, "C6": 3e16, "He2": 2e16}
+    tempA = {"D0": 3.0, "D1": 300.0, "C5": 150.0, "C6": 200.0, "He2": 250.0}
+    over = SEQ_VARIANTS[variant]
+    zero = Vector3D(0, 0, 0)
+
+    def step(a, b):
+        return lambda x, y, z: a if x < 0 else b
+
+    def species(label, nA, nB, tA, tB):
+        el_name, q = {"D0": ("deuterium", 0), "D1": ("deuterium", 1), "C5": ("carbon", 5), "C6": ("carbon", 6), "He2": ("helium", 2), "He1": ("helium", 1)}[label]
+        el = M.element(el_name)
+        return Species(el, q, Maxwellian(step(nA, nB), step(tA, tB), zero, el.atomic_weight * atomic_mass))
+
+    def make_state(extra):
+        """list of Species for the composition after the changes in `extra`"""
+        sp = []
+        for lab in ("D0", "D1", "C5", "C6", "He2"):
+            nA = baseA[lab] * (3.0 if ("replace:" + lab) in extra else 1.0)
+            sp.append(species(lab, nA, over.get(lab, baseA[lab] * 0.5), tempA[lab], tempA[lab] * 1.5))
+        if "add:He1" in extra:
+            sp.append(species("He1", 5e15, 7e15, 40.0, 60.0))
+        return sp
+
+    def make_plasma(extra):
+        pl = Plasma()
+        pl.b_field = zero
+        pl.electron_distribution = Maxwellian(step(1e18, 6e17), step(120.0, 80.0), zero, electron_mass)
+        pl.composition = make_state(extra)
+        return pl
+
+    def make_model(pl):
+        prov = L["Provider"]()
+        if kind == "exc":
+            return ExcitationLine(Line(M.element("deuterium"), 0, (3, 2)), plasma=pl, atomic_data=prov)
+        if kind == "rec":
+            return RecombinationLine(Line(M.element("carbon"), 5, (8, 7)), plasma=pl, atomic_data=prov)
+        if kind == "cx":
+            return ThermalCXLine(Line(M.element("carbon"), 5, (8, 7)), plasma=pl, atomic_data=prov)
+        if kind == "trp":
+            return TotalRadiatedPower(M.element("carbon"), 5, plasma=pl, atomic_data=prov)
+        return Bremsstrahlung(plasma=pl, atomic_data=prov)
+
+    PTS = {"A": (-0.4, 0.1, 0.2), "B": (0.3, -0.2, 0.1)}
+    lo, hi, bins = 420.0, 700.0, 6
+    extra = set()
+    plasma = make_plasma(extra)
+    model = make_model(plasma)
+    hist = []
+    acc.classes += ["seq", "seq:" + kind, "seq:" + variant.split(":")[0]]
+    for st in SEQ_STEPS:
+        if st == "notify":
+            plasma.b_field = zero                      # same value: a pure notification
+            hist.append(st)
+            continue
+        if st == "replace-donor":
+            plasma.composition.add(species("D0", baseA["D0"] * 3.0, over.get("D0", baseA["D0"] * 0.5), tempA["D0"], tempA["D0"] * 1.5))
+            extra.add("replace:D0")
+            hist.append(st)
+            continue
+        if st == "add-species":
+            plasma.composition.add(species("He1", 5e15, 7e15, 40.0, 60.0))
+            extra.add("add:He1")
+            hist.append(st)
+            continue
+        acc.n += 1
+        acc.transitions += 1
+        live = _observe(model, PTS[st], lo, hi, bins)
+        fresh = _observe(make_model(make_plasma(extra)), PTS[st], lo, hi, bins)
+        hist.append(st)
+        acc.nontrivial.append(("seq", kind, variant, len(hist)))
+        same = (live[0] == fresh[0]) and (live[1:] == fresh[1:] if live[0] == "exc" else
+                                          all(_close(a, b, 1e-12) or (a == b) for a, b in zip(live[1], fresh[1])))
+        if not same:
+            after = [h for h in hist[:-1] if h not in ("A", "B")]
+            cause = (after[-1] if after else ("previous-point" if len(hist) > 1 else "first-evaluation"))
+            acc.v("%s:sequence:after-%s:differs-from-a-fresh-model-at-the-same-point" % (name, cause),
+                  "%s, variant %s, history %s: the model evaluated at point %s" % (name, variant, hist, PTS[st]),
+                  fresh[1] if fresh[0] == "ok" else list(fresh), live[1] if live[0] == "ok" else list(live))
+            break
+    acc.out(("seq", kind, variant, len(hist)))
 
 
 def crash_label(case):
@@ -451,6 +566,8 @@ def run_case(case):
         _run_brems(case, acc, route=False)
     elif kind == "slab":
         _run_slab(case, acc)
+    elif kind == "seq":
+        _run_seq(case, acc)
     else:
         raise ValueError(kind)
     r = acc.result(case)
